@@ -8,7 +8,7 @@ use crate::{
 
 #[cfg(feature = "runtime-async-std")]
 use async_std::{
-    fs::File as file,
+    fs::{remove_file, rename, File as file},
     io::prelude::*,
     io::{
         BufReader as ioBufReader, Error as ioError, ErrorKind as ioErrorKind,
@@ -24,7 +24,7 @@ use std::{
 };
 #[cfg(feature = "runtime-tokio")]
 use tokio::{
-    fs::File as file,
+    fs::{remove_file, rename, File as file},
     io::{AsyncBufReadExt, AsyncWriteExt, BufReader as ioBufReader},
 };
 
@@ -106,8 +106,26 @@ where
     }
 
     async fn save_policy_file(&self, text: String) -> Result<()> {
-        let mut file = file::create(&self.file_path).await?;
-        file.write_all(text.as_bytes()).await?;
+        // write the new contents beside the policy file and rename it into
+        // place: creating (truncating) the policy file first would leave a
+        // truncated policy behind when the write fails or is interrupted
+        let mut tmp_path = self.file_path.as_ref().as_os_str().to_owned();
+        tmp_path.push(".tmp");
+
+        let written: std::result::Result<(), ioError> = async {
+            let mut file = file::create(&tmp_path).await?;
+            file.write_all(text.as_bytes()).await?;
+            file.flush().await?;
+            Ok(())
+        }
+        .await;
+
+        if let Err(e) = written {
+            let _ = remove_file(&tmp_path).await;
+            return Err(e.into());
+        }
+
+        rename(&tmp_path, &self.file_path).await?;
         Ok(())
     }
 }
